@@ -15,6 +15,8 @@ import (
 	"net/netip"
 	"os"
 	"path/filepath"
+	"slices"
+	"sync"
 	"strings"
 	"testing"
 
@@ -49,11 +51,15 @@ var vc05Pools = []struct {
 	{netip.MustParsePrefix("203.0.113.0/26"), vc05Loc{"US", 1}},
 	{netip.MustParsePrefix("203.0.113.64/26"), vc05Loc{"US", 2}},
 	{netip.MustParsePrefix("203.0.113.128/26"), vc05Loc{"DE", 1}},
+	{netip.MustParsePrefix("203.0.113.192/27"), vc05Loc{"DE", 2}},
+	{netip.MustParsePrefix("203.0.113.224/27"), vc05Loc{"US", 4}},
 	{netip.MustParsePrefix("2001:db8:c1::/48"), vc05Loc{"US", 1}},
 	{netip.MustParsePrefix("2001:db8:c2::/48"), vc05Loc{"DE", 1}},
 	{netip.MustParsePrefix("192.0.2.0/26"), vc05Loc{"US", 1}},
 	{netip.MustParsePrefix("192.0.2.64/26"), vc05Loc{"DE", 1}},
 	{netip.MustParsePrefix("192.0.2.128/26"), vc05Loc{"DE", 3}},
+	{netip.MustParsePrefix("192.0.2.192/27"), vc05Loc{"US", 2}},
+	{netip.MustParsePrefix("192.0.2.224/27"), vc05Loc{"DE", 2}},
 	{netip.MustParsePrefix("2001:db8:e1::/48"), vc05Loc{"US", 2}},
 	{netip.MustParsePrefix("2001:db8:e2::/48"), vc05Loc{"DE", 1}},
 }
@@ -68,33 +74,30 @@ func vc05LocOf(ip netip.Addr) (l vc05Loc, ok bool) {
 	return vc05Loc{}, false
 }
 
+// vc05Subnets is the model database's (country, ASN) -> coarse subnet table.
+// The lengths are deliberately not multiples of eight, neighbours share their
+// leading whole octets, and two entries share a base address with different
+// lengths, so that a cache key that drops the prefix length, or the partly
+// covered last octet, merges regions.  (DE, ASN 3) has no subnet.
+var vc05Subnets = map[vc05Loc][2]netip.Prefix{
+	{"US", 1}: {netip.MustParsePrefix("198.18.16.0/20"), netip.MustParsePrefix("2001:db8:a110::/44")},
+	{"US", 2}: {netip.MustParsePrefix("198.18.32.0/20"), netip.MustParsePrefix("2001:db8:a120::/44")},
+	{"US", 4}: {netip.MustParsePrefix("198.18.16.0/21"), netip.MustParsePrefix("2001:db8:a110::/45")},
+	{"DE", 1}: {netip.MustParsePrefix("198.18.64.0/22"), netip.MustParsePrefix("2001:db8:a200::/40")},
+	{"DE", 2}: {netip.MustParsePrefix("198.18.68.0/22"), netip.MustParsePrefix("2001:db8:a300::/40")},
+}
+
 func vc05GeoSubnet(l vc05Loc, fam netutil.AddrFamily) netip.Prefix {
-	if l.Country == geoip.CountryNone {
+	e, ok := vc05Subnets[l]
+	if !ok {
 		return netutil.ZeroPrefix(fam)
-	}
-
-	c := byte(1)
-	if l.Country == "DE" {
-		c = 2
-	}
-
-	if l.ASN == 3 {
-		// a location for which the database has no subnet
-		return netutil.ZeroPrefix(fam)
-	}
-
-	// (US, ASN 2) deliberately shares the base address of (US, ASN 1) with a
-	// shorter prefix, so that subnets differing only in length exist.
-	asn, short := byte(l.ASN), 0
-	if l.Country == "US" && l.ASN == 2 {
-		asn, short = 1, 1
 	}
 
 	if fam == netutil.AddrFamilyIPv4 {
-		return netip.PrefixFrom(netip.AddrFrom4([4]byte{198, 18, c*16 + 2*asn, 0}), 24-short)
+		return e[0]
 	}
 
-	return netip.PrefixFrom(netip.AddrFrom16([16]byte{0x20, 1, 0xd, 0xb8, 0xa0 + c, 2 * asn}), 48-short)
+	return e[1]
 }
 
 func vc05NewGeo() *agdtest.GeoIP {
@@ -173,13 +176,68 @@ func (u *vc05Upstream) ServeDNS(ctx context.Context, rw dnsserver.ResponseWriter
 type vc05Env struct {
 	geo  geoip.Interface
 	real bool
+
+	// locate is the reference location lookup.  For the model database it is
+	// the database itself; for the real file it asks a fresh, cache-less
+	// instance per address, so that the reference does not share lookup caches
+	// with the instance under test.
+	locate func(a netip.Addr) (l *geoip.Location)
+
+	// sameBlock, if not nil, returns the addresses the database under test has
+	// been asked about that share a's location-cache block.
+	sameBlock func(a netip.Addr) (as []netip.Addr)
+}
+
+// vc05RecGeo records every address the real database is asked about.
+type vc05RecGeo struct {
+	*geoip.File
+
+	mu   sync.Mutex
+	seen map[string][]netip.Addr
+}
+
+func vc05Block(a netip.Addr) string {
+	if a.Is4In6() {
+		a = a.Unmap()
+	}
+
+	bits := 56
+	if a.Is4() {
+		bits = 24
+	}
+
+	return netip.PrefixFrom(a, bits).Masked().String()
+}
+
+func (g *vc05RecGeo) Data(host string, ip netip.Addr) (l *geoip.Location, err error) {
+	if ip.IsValid() {
+		g.mu.Lock()
+		k := vc05Block(ip)
+		if !slices.Contains(g.seen[k], ip) {
+			g.seen[k] = append(g.seen[k], ip)
+		}
+		g.mu.Unlock()
+	}
+
+	return g.File.Data(host, ip)
+}
+
+func (g *vc05RecGeo) sameBlock(a netip.Addr) (as []netip.Addr) {
+	g.mu.Lock()
+	defer g.mu.Unlock()
+
+	return slices.Clone(g.seen[vc05Block(a)])
 }
 
 // vc05RealAddrs are addresses known to the test databases (AU/ASN 1221, US/WA,
 // JP, US country subnet, JP country subnet) and some unknown to them.
 var vc05RealAddrs = []string{"1.128.0.0", "1.128.0.77", "216.160.83.56", "2001:218::", "2001:218::1234", "76.128.0.5", "240f::1", "203.0.113.9", "2001:db8::9", "89.160.20.112", "81.2.69.142"}
 
-func vc05NewRealGeo(tb testing.TB) geoip.Interface {
+// vc05RealECSAddrs adds IPv4-mapped IPv6 forms, which a client may put into an
+// ECS option of family 2.
+var vc05RealECSAddrs = append([]string{"::ffff:1.128.0.0", "::ffff:216.160.83.56", "::ffff:81.2.69.142", "::ffff:89.160.20.112"}, vc05RealAddrs...)
+
+func vc05NewRealGeo(tb testing.TB) *geoip.File {
 	dir := os.Getenv("VERIF_REPO")
 	if dir == "" {
 		dir = "/repo"
@@ -283,7 +341,12 @@ func (c vc05Client) String() string {
 
 func vc05DrawAddr(t *rapid.T, label string, ecs bool) netip.Addr {
 	if vc05UseRealAddrs {
-		return netip.MustParseAddr(rapid.SampledFrom(vc05RealAddrs).Draw(t, label+"Real"))
+		pool := vc05RealAddrs
+		if ecs {
+			pool = vc05RealECSAddrs
+		}
+
+		return netip.MustParseAddr(rapid.SampledFrom(pool).Draw(t, label+"Real"))
 	}
 
 	pools := []string{"203.0.113.%d", "203.0.113.%d", "2001:db8:c1::%x", "2001:db8:c2::%x", "2001:db8:cf::%x"}
@@ -294,7 +357,7 @@ func vc05DrawAddr(t *rapid.T, label string, ecs bool) netip.Addr {
 	p := rapid.SampledFrom(pools).Draw(t, label+"Pool")
 	// hosts chosen around the /26 boundaries so that neighbours share or do not
 	// share a location.
-	n := rapid.SampledFrom([]int{1, 2, 63, 64, 65, 127, 128, 129, 191, 192, 200}).Draw(t, label+"Host")
+	n := rapid.SampledFrom([]int{1, 2, 63, 64, 65, 127, 128, 129, 191, 192, 200, 223, 224, 230, 250}).Draw(t, label+"Host")
 
 	return netip.MustParseAddr(fmt.Sprintf(p, n))
 }
@@ -306,7 +369,9 @@ func vc05DrawClient(t *rapid.T) (c vc05Client) {
 	case vc05Valid, vc05BadHostBits:
 		a := vc05DrawAddr(t, "ecs", true)
 		bits := 24
-		if a.Is6() {
+		if a.Is4In6() {
+			bits = rapid.SampledFrom([]int{120, 128}).Draw(t, "ecsBitsMapped")
+		} else if a.Is6() {
 			bits = rapid.SampledFrom([]int{48, 56, 64}).Draw(t, "ecsBits6")
 		} else {
 			bits = rapid.SampledFrom([]int{16, 24, 26, 32}).Draw(t, "ecsBits4")
@@ -458,7 +523,12 @@ func TestVerifC05History(tt *testing.T) {
 	st.Finish(tt)
 
 	vc05UseRealAddrs = false
-	vc05RunHistories(tt, st, &vc05Env{geo: vc05NewGeo()})
+	model := vc05NewGeo()
+	vc05RunHistories(tt, st, &vc05Env{geo: model, locate: func(a netip.Addr) *geoip.Location {
+		l, _ := model.Data("", a)
+
+		return l
+	}})
 }
 
 // TestVerifC05RealGeoIP runs the same histories with the real geoip.File on the
@@ -466,13 +536,38 @@ func TestVerifC05History(tt *testing.T) {
 func TestVerifC05RealGeoIP(tt *testing.T) {
 	st := vstat.New("C05", "dnssvc.ecs-history-real-geoip",
 		"as dnssvc.ecs-history, but the GeoIP database is geoip.File on the repository's test MMDB files and client / ECS addresses are drawn from networks those files know (AU/ASN 1221, US/WA, JP, SE, GB) and do not know; the allowed upstream subnets are obtained from the database itself; non-trivial and distinct as above",
-		"hit-scoped", "declined", "malformed", "valid-ecs", "upstream-nonzero-subnet")
+		"hit-scoped", "declined", "malformed", "valid-ecs", "upstream-nonzero-subnet", "ecs-ipv4-mapped")
 	st.Finish(tt)
 
 	vc05UseRealAddrs = true
 	defer func() { vc05UseRealAddrs = false }()
 
-	vc05RunHistories(tt, st, &vc05Env{geo: vc05NewRealGeo(tt), real: true})
+	memo := map[netip.Addr]*geoip.Location{}
+	locate := func(a netip.Addr) *geoip.Location {
+		if l, ok := memo[a]; ok {
+			return l
+		}
+
+		// One fresh instance per address: nothing cached can influence it.
+		l, err := vc05NewRealGeo(tt).Data("", a)
+		if err != nil {
+			tt.Fatalf("harness: reference GeoIP lookup of %s: %v", a, err)
+		}
+
+		memo[a] = l
+
+		return l
+	}
+
+	// The real database caches locations per /24 (IPv4, including the
+	// IPv4-mapped form) and per /56 (IPv6) block by design (RFC 6177 comment in
+	// geoip/file.go), so the location it reports for an address may be that of
+	// any address of the same block it has seen before.  The reference follows
+	// that granularity with its own block function: every address the instance
+	// under test was ever asked about is recorded, and the allowed locations of
+	// an address are those of all recorded addresses of its block.
+	rec := &vc05RecGeo{File: vc05NewRealGeo(tt), seen: map[string][]netip.Addr{}}
+	vc05RunHistories(tt, st, &vc05Env{geo: rec, real: true, locate: locate, sameBlock: rec.sameBlock})
 }
 
 func vc05RunHistories(tt *testing.T, st *vstat.Stats, env *vc05Env) {
@@ -560,9 +655,15 @@ func vc05RunHistories(tt *testing.T, st *vstat.Stats, env *vc05Env) {
 					addrs = append(addrs, c.Subnet.Addr())
 				}
 
+				if env.sameBlock != nil {
+					for _, a := range slices.Clone(addrs) {
+						addrs = append(addrs, env.sameBlock(a)...)
+					}
+				}
+
 				for _, a := range addrs {
-					l, derr := env.geo.Data("", a)
-					if derr != nil || l == nil {
+					l := env.locate(a)
+					if l == nil {
 						continue
 					}
 
@@ -688,6 +789,10 @@ func vc05RunHistories(tt *testing.T, st *vstat.Stats, env *vc05Env) {
 				if scoped && len(scopedCachedFor[qk]) > 0 {
 					classes = append(classes, "declined-after-scoped-cached")
 				}
+			}
+
+			if c.Mode == vc05Valid && c.Subnet.Addr().Is4In6() {
+				classes = append(classes, "ecs-ipv4-mapped")
 			}
 
 			if c.Mode == vc05Valid {
